@@ -120,15 +120,21 @@ static void seq_op(vh_rng* r, struct cont* W, int i, char* opd, size_t cap) {
   if (roll < 20) { snprintf(opd, cap, "%s#%d.push(%" PRId64 ")", CKNAME[k->kind], i, v); push(k->c, VALOBJ(v)); k->m[k->n++] = v; }
   else if (roll < 32 && k->n > 0) {
     int at = (int)vh_below(r, (uint64_t)k->n);
-    snprintf(opd, cap, "%s#%d.push_at(%" PRId64 ",%d)", CKNAME[k->kind], i, v, at);
-    push_at(k->c, VALOBJ(v), $I(at));
+    /* a third of the time through the equivalent negative index (an Array resolves it against the new length, a
+       List against the old one; both are established by C04) */
+    int idx = at;
+    if (vh_chance(r, 33)) { idx = k->kind == CK_ARRAY ? at - k->n - 1 : at - k->n; vh_count("negative_index_operations"); }
+    snprintf(opd, cap, "%s#%d.push_at(%" PRId64 ",%d)", CKNAME[k->kind], i, v, idx);
+    push_at(k->c, VALOBJ(v), $I(idx));
     memmove(&k->m[at + 1], &k->m[at], sizeof(int64_t) * (size_t)(k->n - at)); k->m[at] = v; k->n++;
   }
   else if (roll < 42 && k->n > 0) { snprintf(opd, cap, "%s#%d.pop()", CKNAME[k->kind], i); pop(k->c); k->n--; }
   else if (roll < 52 && k->n > 0) {
     int at = (int)vh_below(r, (uint64_t)k->n);
-    snprintf(opd, cap, "%s#%d.pop_at(%d)", CKNAME[k->kind], i, at);
-    pop_at(k->c, $I(at));
+    int idx = at;
+    if (vh_chance(r, 33)) { idx = at - k->n; vh_count("negative_index_operations"); }
+    snprintf(opd, cap, "%s#%d.pop_at(%d)", CKNAME[k->kind], i, idx);
+    pop_at(k->c, $I(idx));
     memmove(&k->m[at], &k->m[at + 1], sizeof(int64_t) * (size_t)(k->n - at - 1)); k->n--;
   }
   else if (roll < 62 && k->n > 0) {
